@@ -276,6 +276,34 @@ var Probe = Cello(Probe,
   Instance(C_Int, Probe_C_Int),
   Instance(Show, Probe_Show, NULL));
 
+/* WProbe: the same element with a wide body (160 bytes: wider than any buffer a helper might move elements through) that owns a
+   second heap block at its far end; the ledger entry is shared, the tail block must still belong to the same instance when it goes */
+struct WProbe { struct Probe p; char pad[112]; char* tail; int64_t tailserial; };
+extern var WProbe;
+static void wprobe_tail(struct WProbe* w) { memset(w->pad, 0x77, sizeof w->pad); w->tail = malloc(16); memcpy(w->tail, &w->p.serial, 8); w->tailserial = w->p.serial; }
+static void WProbe_New(var self, var args) { struct WProbe* w = self; probe_issue(&w->p, len(args) > 0 ? c_int(get(args, $I(0))) : 0); wprobe_tail(w); }
+static void WProbe_Del(var self) {
+  struct WProbe* w = self;
+  if (w->tailserial != w->p.serial || w->tail == NULL || memcmp(w->tail, &w->p.serial, 8) != 0) led_err("tail-mismatch", w->p.serial);
+  else { memset(w->tail, 0xdd, 16); free(w->tail); }
+  for (size_t i = 0; i < sizeof w->pad; i++) if (w->pad[i] != 0x77) { led_err("body-damaged", w->p.serial); break; }
+  w->tail = NULL; w->tailserial = 0;
+  probe_retire(&w->p);
+}
+static void WProbe_Assign(var self, var obj) {
+  struct WProbe* w = self; struct WProbe* o = cast(obj, WProbe);
+  if (o->p.val == PROBE_REFUSED) throw(ValueError, "Probe: refused value %li", $I(o->p.val));
+  if (w->p.serial == 0 && w->p.heap == NULL) { probe_issue(&w->p, o->p.val); wprobe_tail(w); return; }
+  if (!probe_is_live(&w->p)) { led_err("assign-over-dead", w->p.serial); return; }
+  w->p.val = o->p.val;
+}
+static int WProbe_Cmp(var self, var obj) { struct WProbe* w = self; struct WProbe* o = cast(obj, WProbe); return w->p.val < o->p.val ? -1 : w->p.val > o->p.val ? 1 : 0; }
+static uint64_t WProbe_Hash(var self) { struct WProbe* w = self; return (uint64_t)w->p.val * probe_hash_mul; }
+static int64_t WProbe_C_Int(var self) { struct WProbe* w = self; return w->p.val; }
+static int WProbe_Show(var self, var out, int pos) { struct WProbe* w = self; return print_to(out, pos, "P%li", $I(w->p.val)); }
+var WProbe = Cello(WProbe, Instance(New, WProbe_New, WProbe_Del), Instance(Assign, WProbe_Assign), Instance(Cmp, WProbe_Cmp),
+  Instance(Hash, WProbe_Hash), Instance(C_Int, WProbe_C_Int), Instance(Show, WProbe_Show, NULL));
+
 /* after an execution has been closed (its end event reported what was left): forget leftovers and
    ledger errors so that one defect is blamed on one execution only */
 static void led_abandon(void) {
@@ -296,7 +324,8 @@ static void ev_ledger(void) {
 
 /* ------------------------------------------------------------------ value table */
 
-enum { VT_INT = 1, VT_STR = 2, VT_FLT = 3, VT_PROBE = 4, VT_BOX = 5, VT_ODD = 6, VT_PAIR = 7, VT_SWP = 8 };   /* VT_BOX: a Box owning a managed Probe */
+enum { VT_INT = 1, VT_STR = 2, VT_FLT = 3, VT_PROBE = 4, VT_BOX = 5, VT_ODD = 6, VT_PAIR = 7, VT_SWP = 8, VT_WPROBE = 9 };
+#define IS_PROBE(k) ((k) == VT_PROBE || (k) == VT_WPROBE)   /* VT_BOX: a Box owning a managed Probe */
 /* a plain 12-byte record (no Swap, Assign or Hash instance of its own: the library's byte-wise defaults apply); the two
    payload fields are functions of the key, so a record whose bytes were mixed with another one's is recognised */
 struct Odd12 { int32_t key, a, b; };
@@ -322,16 +351,16 @@ static int vt_nk = 0, vt_nv = 0;
 
 static int vt_kind_of(const char* s) {
   if (!strcmp(s, "Int")) return VT_INT; if (!strcmp(s, "String")) return VT_STR;
-  if (!strcmp(s, "Float")) return VT_FLT; if (!strcmp(s, "Probe")) return VT_PROBE; if (!strcmp(s, "Box")) return VT_BOX;
+  if (!strcmp(s, "Float")) return VT_FLT; if (!strcmp(s, "Probe")) return VT_PROBE; if (!strcmp(s, "WProbe")) return VT_WPROBE; if (!strcmp(s, "Box")) return VT_BOX;
   if (!strcmp(s, "Odd12")) { odd12_init(); return VT_ODD; } if (!strcmp(s, "Pair16")) return VT_PAIR; if (!strcmp(s, "Swp")) return VT_SWP; return 0;
 }
-static var vt_type(int kind) { return kind == VT_SWP ? Swp : kind == VT_PAIR ? Pair16 : kind == VT_ODD ? Odd12 : kind == VT_INT ? Int : kind == VT_STR ? String : kind == VT_FLT ? Float : kind == VT_BOX ? Box : Probe; }
+static var vt_type(int kind) { return kind == VT_WPROBE ? WProbe : kind == VT_SWP ? Swp : kind == VT_PAIR ? Pair16 : kind == VT_ODD ? Odd12 : kind == VT_INT ? Int : kind == VT_STR ? String : kind == VT_FLT ? Float : kind == VT_BOX ? Box : Probe; }
 
 /* parse "<tok> <spec>" : Int/Probe decimal, String hex, Float hex of the IEEE bits */
 static void vt_define(struct Val* tab, int* n, int kind, int tok, const char* spec) {
   if (tok <= 0 || tok >= HC_MAXV) { fprintf(stderr, "bad token %d\n", tok); exit(9); }
   struct Val* v = &tab[tok]; v->kind = kind;
-  if (kind == VT_INT || kind == VT_PROBE || kind == VT_BOX || kind == VT_ODD || kind == VT_PAIR || kind == VT_SWP) v->i = strtoll(spec, NULL, 10);
+  if (kind == VT_INT || kind == VT_PROBE || kind == VT_WPROBE || kind == VT_BOX || kind == VT_ODD || kind == VT_PAIR || kind == VT_SWP) v->i = strtoll(spec, NULL, 10);
   else if (kind == VT_FLT) { uint64_t b = strtoull(spec, NULL, 16); memcpy(&v->f, &b, 8); }
   else { size_t cap = strlen(spec) / 2 + 2; v->s = malloc(cap); v->sl = hc_unhex(spec, (unsigned char*)v->s, cap - 1); v->s[v->sl] = 0; }
   if (tok > *n) *n = tok;
@@ -345,6 +374,7 @@ static var vt_make(struct Val* tab, int tok) {
     case VT_FLT: return new_raw(Float, $F(v->f));
     case VT_STR: return new_raw(String, $S(v->s));
     case VT_PROBE: return new_raw(Probe, $I(v->i));
+    case VT_WPROBE: return new_raw(WProbe, $I(v->i));
     case VT_BOX: return new(Probe, $I(v->i));      /* managed: a Box deletes its pointee with del() */
     case VT_ODD: return new_raw(Odd12, $I(v->i));
     case VT_PAIR: return pair16_make(v->i);
@@ -365,6 +395,7 @@ static int vt_token(struct Val* tab, int n, var o) {
     else if (v->kind == VT_FLT && t == Float) { if (memcmp(&((struct Float*)o)->val, &v->f, 8) == 0) return k; }
     else if (v->kind == VT_STR && t == String) { char* s = ((struct String*)o)->val; if (s && strlen(s) == v->sl && memcmp(s, v->s, v->sl) == 0) return k; }
     else if (v->kind == VT_PROBE && t == Probe) { if (((struct Probe*)o)->val == v->i) return k; }
+    else if (v->kind == VT_WPROBE && t == WProbe) { if (((struct Probe*)o)->val == v->i) return k; }
     else if (v->kind == VT_BOX && t == Box) { struct Probe* pp = ((struct Box*)o)->val; if (pp && pp->val == v->i) return k; }
     else if (v->kind == VT_BOX && t == Probe) { if (((struct Probe*)o)->val == v->i) return k; }
     else if (v->kind == VT_SWP && t == Swp) { struct Swp* r = o; if (r->v == v->i && r->tag == v->i * 5 + 3) return k; }
